@@ -19,6 +19,8 @@
    Modes:  rand <seed> <sessions>      random configurations and ctl histories
            sweep <seed> <level>        max_data_bytes 1..4000 (boundary emphasis) x bit-rates x durations
            ms <seed> <sessions>        multistream / projection encoders (per-stream calls + split)
+           bound <seed> <level>        long frames x high rates x consecutive out_data_bytes (multi-frame boundary scan)
+           cvbr <seed> <n> <seconds>   constrained-VBR long-run totals (S4 only, no I/O lines)
            silkrate                    compute_silk_rate_for_hybrid on a dense grid
            gentoc                      gen_toc on every legal argument tuple
 */
@@ -561,6 +563,35 @@ static void run_sweep(uint64_t seed, int level)
    }
 }
 
+/* boundary scan of the multi-frame (repacketiser) path: long frames x high rates x consecutive out_data_bytes, so that every
+   residue of max_len_sum modulo nb_frames and both sides of the 252-byte length-code boundary occur */
+static void run_bound(uint64_t seed, int level)
+{
+   vrng r; int fi, ch, di, vi, bi, ba, k, mi;
+   static const int brs[] = {OPUS_BITRATE_MAX, 512000, 200000, 96000};
+   static const int bases[] = {255, 505, 760, 1015, 1270, 2540, 3980};
+   static const int modes[] = {OPUS_AUTO, MODE_SILK_ONLY, MODE_CELT_ONLY};
+   r.s = seed * 0x8CB92BA72F3D8DD7ULL + 17;
+   for (fi = 0; fi < 5; fi++) for (ch = 1; ch <= 2; ch++) for (di = 4; di < 9; di++) for (vi = 0; vi < 2; vi++) for (mi = 0; mi < 3; mi++) {
+      int fs = FSS[fi], err, afs = fs / 400 * DUR400[di]; double phase = 0;
+      OpusEncoder *e;
+      if (!level && ((fi + ch + di + vi + mi + (int)(seed % 3)) % 3) != 0) continue;
+      e = opus_encoder_create(fs, ch, mi == 1 ? OPUS_APPLICATION_VOIP : OPUS_APPLICATION_AUDIO, &err);
+      if (!e) continue;
+      opus_encoder_ctl(e, OPUS_SET_VBR(vi)); opus_encoder_ctl(e, OPUS_SET_VBR_CONSTRAINT(0));
+      opus_encoder_ctl(e, OPUS_SET_FORCE_MODE(modes[mi]));
+      if (vchance(&r, 30)) opus_encoder_ctl(e, OPUS_SET_INBAND_FEC(1)), opus_encoder_ctl(e, OPUS_SET_PACKET_LOSS_PERC(20));
+      for (bi = 0; bi < 4; bi++) {
+         opus_encoder_ctl(e, OPUS_SET_BITRATE(brs[bi]));
+         for (ba = 0; ba < 7; ba++) {
+            if (!level && ((ba + bi + di) % 2)) continue;
+            for (k = 0; k < 7; k++) one_encode(&r, e, ch, fs, afs, bases[ba] + k, vchance(&r, 70) ? 2 : 3, &phase);
+         }
+      }
+      opus_encoder_destroy(e);
+   }
+}
+
 /* ------------------------------------------------------------------ multistream / projection */
 static void run_ms(uint64_t seed, long sessions)
 {
@@ -669,6 +700,7 @@ int main(int argc, char **argv)
    if (argc >= 4 && !strcmp(argv[1], "rand")) run_rand(strtoull(argv[2], 0, 10), atol(argv[3]));
    else if (argc >= 4 && !strcmp(argv[1], "sweep")) run_sweep(strtoull(argv[2], 0, 10), atoi(argv[3]));
    else if (argc >= 4 && !strcmp(argv[1], "ms")) run_ms(strtoull(argv[2], 0, 10), atol(argv[3]));
+   else if (argc >= 4 && !strcmp(argv[1], "bound")) run_bound(strtoull(argv[2], 0, 10), atoi(argv[3]));
    else if (argc >= 5 && !strcmp(argv[1], "cvbr")) run_cvbr(strtoull(argv[2], 0, 10), atoi(argv[3]), atoi(argv[4]));
    else if (argc >= 2 && !strcmp(argv[1], "silkrate")) run_silkrate();
    else if (argc >= 2 && !strcmp(argv[1], "gentoc")) run_gentoc();
